@@ -33,7 +33,16 @@ def monitor(case, tr, raw):
     nthread_fibers = 0
     sw_old = {}
     finished = False
+    idle = {}
     for (t, loc, kind, val) in tr:
+        if loc == 910 and kind == 99 and val == 0:
+            idle[t] = True
+            if nthread_fibers and len(idle) == nthread_fibers and all(idle.values()):
+                stuck = [f for f, n in pend.items() if n]
+                if stuck:
+                    return "every kernel thread is idle while fiber %d is still queued" % stuck[0]
+        elif loc != 910:
+            idle[t] = False
         if kind == -9:
             return "the runtime crashed (signal %d) under this schedule" % val
         if kind != 919 and 200 <= loc < 400:
